@@ -22,6 +22,9 @@
  *   threshold (anchored at pid_fuzzy.c a_pid_fuzzy_mf, "y > A_REAL_EPSILON"; same convention as the C13 reference): a lone set with degree
  *           in [4 eps, 64 eps] of the WORKING type fires (gain = base + consequent, which is also what the pure equations say), one with
  *           degree in (0, eps/4] does not (gain == base).  The band (eps/4, 4 eps) is not judged.
+ *   reconfiguration  a third of the fuzzy histories are reconfigured before about every 6th step (fz_reconf: a_pid_fuzzy_set_rule with another NULL pattern of
+ *           freshly allocated consequent tables, a_pid_fuzzy_set_kpid / writes to the base fields, writes to the gains of the embedded a_pid); the gain
+ *           clauses use the configuration in force, and a gain whose table is NULL must equal the base gain in force after every step (h_pid.c, C12-J).
  * Every struct handed to an init function is a garbage-filled (0xA5) exact-size malloc block; every table is an exact-size malloc block.
  */
 #define VF_PROP "C12"
@@ -453,6 +456,81 @@ static void fz_free(fz_t *f)
     }
     free(f->c); free(f->bf); free(f->me); free(f->mec); free(f->mk[0]); free(f->mk[1]); free(f->mk[2]);
 }
+/* reconfiguration between two steps (mirror of fz_reconfigure in h_pid.c, reduced to what matters in every width; reasoning there): the
+   effective gains are base + tuned offset, recomputed by every step from the configuration in force, so after
+     - a_pid_fuzzy_set_rule with the same membership tables and another NULL pattern of freshly allocated consequent tables (the replaced
+       tables are freed: a retained pointer is a use-after-free under ASan),
+     - a_pid_fuzzy_set_kpid or a write to the public base fields kp / ki / kd,
+     - a write to the gains of the embedded plain controller (pid.kp / ki / kd, which the next fuzzy step overwrites with base + offset)
+   the next step must give pid.k? == base in force + consequent in force (exact regime: bitwise), and == base for a gain whose table is NULL */
+static void fz_reconf(fz_t *f, vf_rng *r, unsigned k)
+{
+    a_pid_fuzzy *const c = f->c;
+    a_pid const snap = c->pid;
+    unsigned const ev = (unsigned)vf_below(r, 5);
+    if (ev < 2)
+    {
+        unsigned const pat = (unsigned)vf_below(r, 8);
+        a_real *nm[3];
+        for (int t = 0; t < 3; ++t)
+        {
+            nm[t] = NULL;
+            if (!(pat >> t & 1)) { continue; }
+            nm[t] = (a_real *)blk(sizeof(a_real) * f->n * f->n);
+            for (unsigned i = 0; i < f->n * f->n; ++i)
+            {
+                nm[t][i] = t == 1 ? g16(r, -(int)(f->base[1] * 16), 32) : g16(r, -48, 48); /* effective ki = base + consequent >= 0 */
+                if (A_ABS(nm[t][i]) > f->cmax) { f->cmax = A_ABS(nm[t][i]); }
+            }
+        }
+        vf_log("k=%u a_pid_fuzzy_set_rule: same order %u and membership tables, tables %c%c%c (were %c%c%c)", k, f->n, nm[0] ? 'p' : '-', nm[1] ? 'i' : '-', nm[2] ? 'd' : '-', f->mk[0] ? 'p' : '-',
+               f->mk[1] ? 'i' : '-', f->mk[2] ? 'd' : '-');
+        a_pid_fuzzy_set_rule(c, f->n, f->me, f->mec, nm[0], nm[1], nm[2]);
+        for (int t = 0; t < 3; ++t)
+        {
+            if (f->mk[t] && !nm[t]) { VF_COUNT("w-fuzzy-rule-swap-drops-a-tuned-table"); }
+            free(f->mk[t]);
+            f->mk[t] = nm[t];
+        }
+        VF_COUNT("w-fuzzy-rule-base-swapped-mid-history");
+    }
+    else if (ev < 4)
+    {
+        int lo16 = 0;
+        a_real nb[3];
+        if (f->mk[1]) { for (unsigned i = 0; i < f->n * f->n; ++i) { int const v = -(int)(f->mk[1][i] * 16); if (v > lo16) { lo16 = v; } } }
+        nb[0] = g16(r, -32, 32); nb[1] = g16(r, lo16, 32); nb[2] = vf_chance(r, 1, 4) ? 0 : g16(r, -32, 32);
+        if (ev == 2)
+        {
+            vf_log("k=%u a_pid_fuzzy_set_kpid(%La, %La, %La)", k, LD(nb[0]), LD(nb[1]), LD(nb[2]));
+            a_pid_fuzzy_set_kpid(c, nb[0], nb[1], nb[2]);
+            memcpy(f->base, nb, sizeof nb);
+        }
+        else
+        {
+            unsigned const mask = 1 + (unsigned)vf_below(r, 7);
+            vf_log("k=%u write to the public base fields%s%s%s: %La %La %La", k, mask & 1 ? " kp" : "", mask & 2 ? " ki" : "", mask & 4 ? " kd" : "", LD(nb[0]), LD(nb[1]), LD(nb[2]));
+            if (mask & 1) { c->kp = f->base[0] = nb[0]; }
+            if (mask & 2) { c->ki = f->base[1] = nb[1]; }
+            if (mask & 4) { c->kd = f->base[2] = nb[2]; }
+        }
+        VF_COUNT("w-fuzzy-base-gain-changed-mid-history");
+    }
+    else
+    {
+        vf_log("k=%u write to ctx->pid.kp/ki/kd of the embedded plain controller (overwritten by the next fuzzy step)", k);
+        /* tuned gains only (see h_pid.c): an untuned gain may legitimately live in pid.k? from the setters on */
+        if (f->mk[0]) { c->pid.kp = (a_real)1234.5; }
+        if (f->mk[1]) { c->pid.ki = (a_real)-77.25; }
+        if (f->mk[2]) { c->pid.kd = (a_real)0.03125; }
+        VF_COUNT("w-fuzzy-embedded-pid-gains-scribbled");
+    }
+    if (!(snap.sum == c->pid.sum && snap.out == c->pid.out && snap.var == c->pid.var && snap.fdb == c->pid.fdb && snap.err == c->pid.err))
+    {
+        vf_viol("pid_fuzzy/state-or-limit-changed-by-reconfiguration/" W, "before step %u: a setter changed a state field", k);
+    }
+}
+
 static a_real call_fuzzy(a_pid_fuzzy *c, int mode, a_real set, a_real fdb)
 {
     return mode == M_RUN ? a_pid_fuzzy_run(c, set, fdb) : mode == M_POS ? a_pid_fuzzy_pos(c, set, fdb) : a_pid_fuzzy_inc(c, set, fdb);
@@ -465,6 +543,8 @@ static void case_fuzzy(vf_rng *r, uint64_t q, int grid)
     int const hw = grid == 1 ? 1 : 1 + (int)(q / 49 % 2), exact = grid == 1;
     int mode = (int)vf_below(r, 3), e4;
     a_real (*op)(a_real, a_real) = a_pid_fuzzy_opr(opr);
+    int const rc = q % 3 == 2; /* a third of the histories are reconfigured between steps (about every 6th step) */
+    unsigned nrec = 0;
     lim_t lim;
     fz_t f;
     qst ref = QZ;
@@ -490,6 +570,7 @@ static void case_fuzzy(vf_rng *r, uint64_t q, int grid)
             ref = QZ;
             VF_COUNT("w-zero-mid-history");
         }
+        if (rc && vf_below(r, 6) == 0) { fz_reconf(&f, r, k); ++nrec; }
         mode = next_mode(r, mode, psw, 7);
         /* the error walks over the universe of the sets (and a little beyond, where nothing fires) */
         e4 += (int)vf_range(r, -2 * grid, 2 * grid);
@@ -525,6 +606,18 @@ static void case_fuzzy(vf_rng *r, uint64_t q, int grid)
         got[0] = f.c->pid.kp; got[1] = f.c->pid.ki; got[2] = f.c->pid.kd;
         if (exact) { VF_COUNT("w-fuzzy-table-lookup-gains-exact"); } else { VF_COUNT("w-fuzzy-gains-weighted-mean"); }
         if (!(na && nb)) { VF_COUNT("w-seen-fuzzy-no-set-fires"); }
+        for (int t = 0; t < 3; ++t)
+        {
+            /* a gain without rule table is not tuned: effective gain == base gain in force, in every regime */
+            if (f.mk[t]) { continue; }
+            VF_COUNT("w-fuzzy-null-table-gain-equals-base");
+            if (!(got[t] == f.base[t]) || !((t == 0 ? f.c->kp : t == 1 ? f.c->ki : f.c->kd) == f.base[t]))
+            {
+                vf_viol(nrec ? "pid_fuzzy/untuned-gain-ne-base-after-reconfiguration/" W : "pid_fuzzy/untuned-gain-ne-base/" W,
+                        "step %u a_pid_fuzzy_%s(set=%La, fdb=%La): the rule table of k%c is NULL, base gain in force %La, pid.k%c=%La after the step (%u reconfigurations so far)", k, MODE[mode],
+                        LD(set), LD(fdb), "pid"[t], LD(f.base[t]), "pid"[t], LD(got[t]), nrec);
+            }
+        }
         for (int t = 0; t < 3; ++t)
         {
             q_t const tol = exact ? 0 : 8 * EPS * (qabs(f.base[t]) + (q_t)f.cmax + 1) * (q_t)(na * nb + 2);
